@@ -10,13 +10,13 @@ REPO = os.environ.get('PEPPI_REPO', '/repo')
 MODELRUN = os.path.join(WORK, 'extract', 'modelrun')
 
 TRUSTED_BASE = [
-    'Coq 8.16.1 kernel including the VM (vm_compute); no native_compute',
-    'axioms: none (every property theorem is closed under the global context; audited on every run)',
-    'tools/rust2coq.py: that the regenerated tables/definitions mean what the Rust text means',
+    'Coq 8.16.1 kernel including the VM (vm_compute on closed terms: regenerated tables, example replays, byte constants); no native_compute',
+    'axioms: none (every property theorem is closed under the global context; counted and audited on every run); Section hypotheses about library codecs (serde_json, arrow2 IPC) are explicit premises of the C02/C18 entry-level theorems',
+    'tools/rust2coq.py: that the regenerated definitions and tables (Gen/Funs.v, Tables.v, Layouts.v, WriterSizes.v, SlppEntries.v) mean what the Rust text means',
     'Layout/Sem.v interpreters: reading of the generated idioms (read_<p>::<BE> big-endian, push(Some x), value(i), size_of)',
-    'extraction with ExtrOcamlBasic only (bool, option, unit, list, prod, sumbool, sumor; inlined andb/orb), OCaml 4.13.1, modelrun/driver.ml glue',
-    'Rust harness /verif/harness (pvh) and the Python orchestration/diff',
-    'hand transcriptions: Layout/Spec.v (Slippi spec offsets), Model/*.v (hand model of src/io/**, tied by the correspondence run)',
+    'extraction with ExtrOcamlBasic only (bool, option, unit, list, prod, sumbool, sumor; inlined andb/orb), OCaml 4.13.1, modelrun/driver.ml + modes.ml glue (one Obj.magic cast int -> Byte.byte, self-checked at start-up)',
+    'Rust harness /verif/harness (pvh) and the Python orchestration, generators, oracles and diff',
+    'hand transcriptions: Layout/Spec.v (Slippi spec offsets); Model/*.v (hand model of src/io/**, src/frame preambles, std read_exact and the hashing wrapper: tied by the correspondence run); Recorder.v / Irregular*.v (the definitions of well-formed replay, its canonical stream, the game it denotes, tolerated irregularities: compared with the independent Python generator on every run)',
 ]
 
 FORBIDDEN = re.compile(r'\b(Admitted|admit|Axiom|Axioms|Parameter|Parameters|Conjecture|Hypothesis|Hypotheses|Variable|Variables)\b|Unset\s+Guard|bypass_check|type-in-type|impredicative-set|Admit Obligations')
